@@ -299,6 +299,21 @@ theorem zst_into_flattened (usizeMax n arrLen : Nat) :
   · simp [h] <;> omega
   · simp [h] <;> omega
 
+/-- the degenerate array length `N = 0` (sized `T`): the source elements `[T; 0]` are zero-sized, so the source
+    reports capacity `usize::MAX`, but the flattened vector of sized `T` holds nothing and must CLAIM nothing:
+    `len = 0`, capacity `arrCap * 0 = 0` (a full `FixedBumpVec`; no slot is claimed on the dangling pointer) —
+    `into_flattened_partitions` covers it (its hypotheses hold for `n = 0`, `flat = []`) -/
+theorem into_flattened_zero (a : ArrVec) (hn : a.n = 0) (hf : a.flat = []) (hc : a.arrLen ≤ a.arrCap) :
+    a.Holds false [] ∧ (intoFlattened a).1.len = 0 ∧ (intoFlattened a).2 = 0 ∧ (intoFlattened a).1.cap = 0 := by
+  refine ⟨⟨by simp [hn], hc, by simp [hn, hf]⟩, by simp [intoFlattened, hn], by simp [intoFlattened, hn], by simp [intoFlattened, Vec.cap, hf]⟩
+
+example : intoFlattened { n := 0, arrLen := 3, arrCap := 18446744073709551615, flat := [] } = ({ slots := [], len := 0 }, 0) := by
+  decide
+
+/-- `N = 1`: nothing changes but the element type -/
+example : intoFlattened { n := 1, arrLen := 2, arrCap := 3, flat := I [1, 2] ++ H 1 } = ({ slots := I [1, 2] ++ H 1, len := 2 }, 3) := by
+  decide
+
 /-- non-vacuity: two arrays of two in a buffer for three arrays -/
 example : (intoFlattened { n := 2, arrLen := 2, arrCap := 3, flat := I [1, 2, 3, 4] ++ H 2 }) =
     ({ slots := I [1, 2, 3, 4] ++ H 2, len := 4 }, 6) := by decide
